@@ -5,15 +5,22 @@ from ..flow import (resolver, peel, root_local, guards_of, aggregates, forward, 
 from ..facts import AnchorMissing
 from . import C09, C18, shared
 
-LEVEL = ("decides the discipline around explanations, not their logic: propagators and constraints "
-         "change domains only through the reason-carrying context API, whose four mutators store the "
-         "reason they are given and hand its reference to the domain (L1); every propagator that posts "
-         "lazy reasons implements lazy_explanation and every wrapper forwards it (L2); no reason "
-         "reference is fabricated and only decisions lack a reason (L3); conflicts of a reified "
-         "propagator carry the literal (L4); a lazy explanation does not depend — by data or control "
-         "flow — on a read of the *current* domains (L5); reasons assembled from input data outside "
-         "propagate are filtered to predicates that hold (L6). Logical sufficiency and truth of the "
-         "stated facts — the heart of the property — are NOT decided")
+LEVEL = ('decides the discipline around explanations, not their logic: propagators and constraints '
+         'change domains only through the reason-carrying context API, whose four mutators store the '
+         'reason they are given and hand its reference to the domain (L1); every propagator that posts'
+         ' lazy reasons implements lazy_explanation and every wrapper forwards it (L2); no reason '
+         'reference is fabricated and only decisions lack a reason (L3); conflicts of a reified '
+         'propagator carry the literal (L4); a lazy explanation does not depend — by data or control '
+         'flow — on a read of the *current* domains (L5); reasons assembled from input data outside '
+         'propagate are filtered to predicates that hold (L6). Of the logic it decides these necessary'
+         ' conditions for the arithmetic and element propagators: a directly stated bound is a bound '
+         'of the same variable in the right direction (L8); the reason of a propagated bound states '
+         'every bound the value was computed from (L9); a computed bound fact is established by a '
+         'dominating comparison (L10) and is as strong as that comparison, so that the reason implies '
+         'the branch it was made on (L13); implicit kernel reasons imply their predicate (L11); the '
+         "cumulative handler's cached profile explanation is reset whenever the profile changes (L12)."
+         ' Beyond these necessary conditions: Logical sufficiency and truth of the stated facts — the '
+         'heart of the property — are NOT decided')
 TECHNIQUE = "static analysis: who-may-call / taint with control dependence / dominance over rustc MIR"
 
 ASSIGN_MUTATORS = ("tighten_lower_bound", "tighten_upper_bound", "remove_value_from_domain",
